@@ -591,6 +591,19 @@ func closeEvents(w *World, loopsOf func(body *ast.BlockStmt) []*closeLoop) *Even
 // casOnField matches atomic.CompareAndSwapInt32(&x.f, 0, 1) and x.f.CompareAndSwap(false, true).
 func casOnField(info *types.Info, call *ast.CallExpr) (*types.Var, bool) {
 	cal := callee(info, call)
+	// s.markDisposed(): a repository function whose whole body returns the compare-and-swap
+	if cal != nil && !isAtomicFunc(cal) && theWorld != nil {
+		if t := theWorld.Decls[cal]; t != nil && t.Decl.Body != nil && len(t.Decl.Body.List) == 1 {
+			if ret, ok := t.Decl.Body.List[0].(*ast.ReturnStmt); ok && len(ret.Results) == 1 {
+				if inner, ok := unparen(ret.Results[0]).(*ast.CallExpr); ok {
+					if c2 := callee(t.Pkg.TypesInfo, inner); c2 != nil && isAtomicFunc(c2) {
+						return casOnField(t.Pkg.TypesInfo, inner)
+					}
+				}
+			}
+		}
+		return nil, false
+	}
 	if cal == nil || !isAtomicFunc(cal) {
 		return nil, false
 	}
@@ -644,7 +657,10 @@ func lenTest(info *types.Info, be *ast.BinaryExpr) (types.Object, bool, bool) {
 		if !ok || id.Name != "len" {
 			return nil
 		}
-		return objOf(info, c.Args[0])
+		if o := objOf(info, c.Args[0]); o != nil {
+			return o
+		}
+		return baseObj(info, c.Args[0]) // len(acc.errs): the accumulator is a field of a small struct
 	}
 	if o := lenOf(be.X); o != nil {
 		if v, ok := constInt(info, be.Y); ok {
